@@ -191,7 +191,7 @@ def rule_narrow(facts):
         sites = []
         for rec in insts:
             r.functions.add(rec["key"])
-            for c, ln, d, ops in c12.kernel_sites(rec):
+            for c, ln, d, ops, _site in c12.kernel_sites(rec):
                 if re.search(r"::(Div|Rem|DivisionByZero|RemainderByZero|Overflow:Div|Overflow:Rem|DivAssign|RemAssign)$", c):
                     continue     # division by a (positive) scale factor cannot overflow; /0 and MIN/-1 on SQL values are C12's subject
                 ex = NARROW_EXEMPT.get((rec["id"], c))
